@@ -48,7 +48,15 @@ type Bad struct {
 }
 
 // TraceResult is the outcome of validating one trace file.
+// Need is a codec value the specification asked the environment for.
+type Need struct {
+	Line int    `json:"line"`
+	Name string `json:"name"`
+	Arg  any    `json:"arg"`
+}
+
 type TraceResult struct {
+	Needs []Need
 	Stats
 	Events  int // events in the file
 	Checked int // events whose result was compared by the specification
@@ -190,6 +198,7 @@ func ValidateTrace(dir, family string, lines [][]byte, extraHeader map[string]an
 		Nchk  int   `json:"nchk"`
 		Undef int   `json:"undef"`
 		Bad   []Bad `json:"bad"`
+		Needs []Need `json:"needs"`
 	}
 	if jerr := json.Unmarshal(rb, &r); jerr != nil {
 		return res, fmt.Errorf("bad result.json: %v: %s", jerr, rb)
@@ -200,6 +209,7 @@ func ValidateTrace(dir, family string, lines [][]byte, extraHeader map[string]an
 	res.Checked = r.Nchk
 	res.Undef = r.Undef
 	res.Bad = r.Bad
+	res.Needs = r.Needs
 	sort.Slice(res.Bad, func(i, j int) bool { return res.Bad[i].Line < res.Bad[j].Line })
 	return res, nil
 }
@@ -225,7 +235,15 @@ type ShardedBad struct {
 	Why     string
 }
 
+// ShardedNeed locates a need at (session, event).
+type ShardedNeed struct {
+	Session, Event int
+	Name           string
+	Arg            any
+}
+
 type ShardedResult struct {
+	Needs            []ShardedNeed
 	Stats            // summed
 	Events, Checked  int
 	Undef            int
@@ -281,6 +299,12 @@ func ValidateSharded(baseDir, family string, sessions []Session, extraHeader map
 			out.Checked += r.Checked
 			out.Undef += r.Undef
 			out.Cmds = append(out.Cmds, r.Cmd)
+			for _, nd := range r.Needs {
+				idx := nd.Line - 2
+				if idx >= 0 && idx < len(locs[k]) {
+					out.Needs = append(out.Needs, ShardedNeed{locs[k][idx].sess, locs[k][idx].ev, nd.Name, nd.Arg})
+				}
+			}
 			for _, b := range r.Bad {
 				// trace line numbering: header is line 1
 				idx := b.Line - 2
